@@ -15,8 +15,8 @@ order the harness owns (verifKeys, see /verif/hooks/pkg/headers/zz_verif_hooks.g
     for _, k := range verifKeys(kvs) { v := kvs[k]
 
 Failure policy (nothing is skipped silently):
-  * a `range kvs` that is still present after rewriting (a form this script does not understand) -> exit 1,
-    vcheck turns that into HARNESS-ERROR / exit 2;
+  * a `range kvs` that is still present after rewriting (a form this script does not understand) -> count -1 in
+    the generated status file; the check then stops with run.Fatal (HARNESS-ERROR, exit 2);
   * a file that calls keyValParse but contains no `range` over its result at all (e.g. after the library was
     changed to visit the keys in a fixed order) is reported with count 0 in the generated status file; the
     check then says so loudly (caps_hit) and tests that header by repetition of the native code instead.
@@ -73,9 +73,10 @@ for name in sorted(os.listdir(pkg)):
             sys.stderr.write("C09 overlay: %s still ranges over the keyValParse result %r in a form that "
                              "overlay.py cannot rewrite (%d occurrence(s)); update checks/c09/overlay.py\n"
                              % (path, m, len(left)))
-            sys.exit(1)
+            count = -1
+            break
     status[name] = count
-    if count:
+    if count > 0:
         tgt = os.path.join(out_dir, name)
         with open(tgt, "w", encoding="utf-8") as f:
             f.write(new)
@@ -85,7 +86,7 @@ st = os.path.join(out_dir, "zz_verif_c09_status.go")
 with open(st, "w", encoding="utf-8") as f:
     f.write("//go:build verif\n\npackage headers\n\n")
     f.write("// VerifC09Rewritten: parser file -> number of range-over-map loops that overlay.py put under the\n")
-    f.write("// control of VerifOrder (0 = the file calls keyValParse but does not range over its result).\n")
+    f.write("// control of VerifOrder (0 = the file calls keyValParse but does not range over its result,\n// -1 = it ranges over it in a form overlay.py cannot rewrite).\n")
     f.write("var VerifC09Rewritten = map[string]int{\n")
     for k in sorted(status):
         f.write("\t%s: %d,\n" % (json.dumps(k), status[k]))
